@@ -33,7 +33,7 @@ class Unit:
                  result=None, invariants=None, variants=None, native=None, bounds=(), gen=None, inline=(),
                  abstract=None, module_consts=None, safety=('index', 'div'), trusted=False, short=None,
                  doc='', while_bound=6, fresh_attr=None, canary=None, timeout_ms=8000, defaults=None,
-                 exec_cls=None, self_class=None, cases=None):
+                 exec_cls=None, self_class=None, cases=None, store='ite'):
         self.props = [props] if isinstance(props, str) else list(props)
         self.qualname = qualname
         self.short = short or qualname.split(':')[1]
@@ -59,6 +59,7 @@ class Unit:
         self.exec_cls = exec_cls or Exec
         self.self_class = self_class
         self.cases = list(cases or [{}])
+        self.store = store
         self._view0 = None
         self._fndef = None
         if qualname in REGISTRY:
@@ -191,7 +192,7 @@ def build_obligations(unit, c):
     v0 = View(c, dict(env), heap0)
     unit._view0 = v0
     pre = _named(unit.pre(c, v0)) if unit.pre else []
-    st.assume(*[g for _, g in pre])
+    st.assume_named('pre', pre)
     ex = unit.exec_cls(c, unit, REGISTRY, safety=unit.safety)
     ex.pre_pc = list(st.pc)
     # bind defaults for parameters the contract did not supply
@@ -311,6 +312,9 @@ def verify_unit(unit, tier='quick', dump_dir=None):
             res.error = ('engine', label + traceback.format_exc(limit=8))
             return res
         res.paths += len(outs)
+        if not outs:
+            res.error = ('engine', label + 'no feasible path through the function (vacuous)')
+            return res
         sum_extensionality(c)
         ctxs.append((label, c, ex))
         for o in ex.obls:
